@@ -12,8 +12,13 @@ use std::collections::{HashMap, VecDeque};
 
 /// Flatten a type into the list of things it mentions.
 fn mentions<'tcx>(tcx: TyCtxt<'tcx>, ty: Ty<'tcx>, out: &mut Vec<J>, adts: &mut Vec<DefId>) {
-    for arg in ty.walk() {
+    let mut walker = ty.walk();
+    while let Some(arg) = walker.next() {
         let Some(t) = arg.as_type() else { continue };
+        if matches!(t.kind(), ty::FnPtr(..) | ty::FnDef(..)) {
+            // a function pointer holds no data: do not descend into its signature
+            walker.skip_current_subtree();
+        }
         match t.kind() {
             ty::Adt(def, _) => {
                 out.push(obj! {"adt": J::s(def_str(tcx, def.did()))});
@@ -98,9 +103,10 @@ pub fn statics(tcx: TyCtxt<'_>) -> J {
                     continue;
                 }
                 let env = ty::TypingEnv::post_analysis(tcx, did);
-                if !ty.is_freeze(tcx, env) {
+                let is_tls = ty_str(ty).contains("thread::local::LocalKey");
+                if !ty.is_freeze(tcx, env) || is_tls {
                     out.push(obj! {
-                        "def": J::s(def_str(tcx, did)), "const_nonfreeze": J::Bool(true),
+                        "def": J::s(def_str(tcx, did)), "const_nonfreeze": J::Bool(!is_tls), "thread_local": J::Bool(is_tls),
                         "ty": J::s(ty_str(ty)), "sp": J::s(span_str(tcx, item.span)),
                         "exp": J::opt(expn_str(item.span).map(J::s))
                     });
